@@ -39,3 +39,9 @@ from rules import acctcensus
 c = acctcensus.census(facts)
 json.dump(c, open(os.path.join(V, "specs", "accounts_census.json"), "w"), indent=0, sort_keys=True)
 print("account structs", len(c), "fields", sum(len(v) for v in c.values()))
+from analysis import writes
+facts._mut_sigs = None
+facts._recording = True
+ms = writes.mutator_signatures(facts)
+json.dump({facts.crate: {p: [adt, {f: list(v) for f, v in sig.items()}] for p, (adt, sig) in ms.items()}}, open(os.path.join(V, "specs", "mutators.json"), "w"), indent=0, sort_keys=True)
+print("mutator signatures", len(ms))
